@@ -77,11 +77,11 @@ func (propC18) Gen(r *Rand) *Plan {
 		for i := 0; i < n; i++ {
 			switch r.Weighted([]int{6, 2, 3, 2, 1, 5, 2, 2, 1, 3}) {
 			case 7:
-				ops = append(ops, Op{Op: "addfn", S: r.Pick(c18FnNames)})
+				ops = append(ops, Op{Op: "addfn", S: r.Pick(c18FnNames), H: r.Intn(2)})
 			case 8:
-				ops = append(ops, Op{Op: "removefn", S: r.Pick(c18FnNames)})
+				ops = append(ops, Op{Op: "removefn", S: r.Pick(c18FnNames), H: r.Intn(2)})
 			case 9:
-				ops = append(ops, Op{Op: "callfn", S: flipCase(r, r.Pick(c18FnNames))})
+				ops = append(ops, Op{Op: "callfn", S: flipCase(r, r.Pick(c18FnNames)), H: r.Intn(2)})
 			case 0:
 				ops = append(ops, c18GenSetExpr(r))
 			case 1:
@@ -134,7 +134,17 @@ func c18GenSetExpr(r *Rand) Op {
 		// simple: sums and products of variables, quoted identifiers and literals
 		var names []string
 		seen := map[string]bool{}
+		size := r.Size()
 		nterms := r.Range(1, 5)
+		varPool := exprVarPool
+		if size >= 3 {
+			// many distinct variables, most of them occurring more than once
+			nterms = r.Range(4, 14*size)
+			varPool = nil
+			for k := 0; k < 5*size; k++ {
+				varPool = append(varPool, fmt.Sprintf("v%d", k))
+			}
+		}
 		var parts []string
 		unknownFn := ""
 		for i := 0; i < nterms; i++ {
@@ -163,7 +173,7 @@ func c18GenSetExpr(r *Rand) Op {
 				}
 				fallthrough
 			default:
-				n := r.Pick(exprVarPool)
+				n := r.Pick(varPool)
 				if !seen[strings.ToUpper(n)] {
 					seen[strings.ToUpper(n)] = true
 					names = append(names, n)
@@ -597,7 +607,10 @@ func c18Calculator(ops []Op, run *Run, out *Outcome) int {
 		name string
 		id   int
 	}
-	var fnModel []fnEntry // custom functions appended after the defaults
+	// two calculators are alive: their function tables must be independent
+	calc2 := calculator.NewExpressionCalculator()
+	fnModels := [2][]fnEntry{} // custom functions appended after the defaults, per calculator
+	var fnModel []fnEntry      // the model of the calculator an operation addresses
 	nextFn := 1000
 	isDefault := func(name string) bool {
 		for _, d := range c08Names {
@@ -611,7 +624,7 @@ func c18Calculator(ops []Op, run *Run, out *Outcome) int {
 		if isDefault(name) {
 			return true
 		}
-		for _, f := range fnModel {
+		for _, f := range fnModels[0] {
 			if strings.EqualFold(f.name, name) {
 				return true
 			}
@@ -626,17 +639,27 @@ func c18Calculator(ops []Op, run *Run, out *Outcome) int {
 				continue
 			}
 			nextFn++
-			calc.DefaultFunctions().Add(&c18Fn{name: o.S, id: nextFn})
-			fnModel = append(fnModel, fnEntry{o.S, nextFn})
+			which := o.H & 1
+			c := calc
+			if which == 1 {
+				c = calc2
+			}
+			c.DefaultFunctions().Add(&c18Fn{name: o.S, id: nextFn})
+			fnModels[which] = append(fnModels[which], fnEntry{o.S, nextFn})
 			changes++
 		case "removefn":
 			if isDefault(o.S) {
 				continue // keep the defaults in place: the model does not track them
 			}
-			calc.DefaultFunctions().RemoveByName(o.S)
-			for j, f := range fnModel {
+			which := o.H & 1
+			c := calc
+			if which == 1 {
+				c = calc2
+			}
+			c.DefaultFunctions().RemoveByName(o.S)
+			for j, f := range fnModels[which] {
 				if strings.EqualFold(f.name, o.S) {
-					fnModel = append(append([]fnEntry{}, fnModel[:j]...), fnModel[j+1:]...)
+					fnModels[which] = append(append([]fnEntry{}, fnModels[which][:j]...), fnModels[which][j+1:]...)
 					changes++
 					break
 				}
@@ -649,13 +672,24 @@ func c18Calculator(ops []Op, run *Run, out *Outcome) int {
 			if strings.EqualFold(o.S, "max") {
 				args = "(1, 2)"
 			}
-			if err := calc.SetExpression(o.S + args); err != nil {
+			which := o.H & 1
+			c := calc
+			if which == 1 {
+				c = calc2
+				out.Probes["second_calculator_called"]++
+			}
+			fnModel = fnModels[which]
+			if err := c.SetExpression(o.S + args); err != nil {
 				out.Observations["setexpr_error"]++
-				haveExpr = false
+				if which == 0 {
+					haveExpr = false
+				}
 				continue
 			}
-			haveExpr, curVars, curSimple, curUnknownFn, curFn = true, nil, true, "", o.S
-			res, err := evalNoPanic(func() (*variants.Variant, error) { return calc.Evaluate() }, out)
+			if which == 0 {
+				haveExpr, curVars, curSimple, curUnknownFn, curFn = true, nil, true, "", o.S
+			}
+			res, err := evalNoPanic(func() (*variants.Variant, error) { return c.Evaluate() }, out)
 			want := -1
 			for _, f := range fnModel {
 				if strings.EqualFold(f.name, o.S) {
